@@ -638,6 +638,8 @@ def _residue_strategy(tier, key, kind):
         fields['extras'] = st.lists(extra, min_size=1, max_size=count)
     pres = _pres_strategy(info, intensity)
     fields['pres'] = st.tuples(pres, pres).map(list)
+    if kind == 'remove+same':
+        fields['standin'] = st.booleans()
     spec = st.fixed_dictionaries(fields)
     if 'same' in kind:
         # at least one extra of an element of the block, else it is a 'foreign' case
@@ -648,6 +650,16 @@ def _residue_strategy(tier, key, kind):
 def _force_same(spec):
     if all(e['el'] == 'foreign' for e in spec['extras']):
         spec['extras'][0]['el'] = spec['extras'][0]['at']
+    if spec.pop('standin', False):
+        # the first extra takes the place of a removed atom: same element, attached to a former neighbour
+        info = _INFO[(spec['ff'], spec['block'])]
+        removed = set(spec['remove'])
+        kept = [i for i in range(info.n) if i not in removed]
+        for gone in spec['remove']:
+            partners = [i for i in info.graph[gone] if i not in removed]
+            if partners:
+                spec['extras'][0].update(at=kept.index(min(partners)), el=gone)
+                break
     return spec
 
 
@@ -680,7 +692,10 @@ def _strategy(tier):
             small = [k for k in pool if _INFO[k].n <= BOUND_SAME_ANY]
             block = st.one_of(st.sampled_from(small), st.sampled_from(pool)) if small else st.sampled_from(pool)
         else:
-            block = st.sampled_from(pool)
+            # a quarter of the cases on the (few) blocks of 25 atoms and more
+            big = [k for k in pool if _INFO[k].n >= 25]
+            block = st.one_of(st.sampled_from(pool), st.sampled_from(pool), st.sampled_from(pool),
+                              st.sampled_from(big)) if big else st.sampled_from(pool)
         residue = block.flatmap(lambda key: _residue_strategy(tier, tuple(key), kind))
         if not two:
             second = st.none()
@@ -792,5 +807,7 @@ ASSUMPTIONS = [
 
 PARTS = [
     Part('blocks', run, enumerate=_enumerate),
-    Part('presentations', run, strategy=_strategy, examples={'quick': 900, 'thorough': 24000}),
+    Part('presentations', run, strategy=_strategy, examples={'quick': 1500, 'thorough': 60000},
+         floors={'symmetric': 0.5, 'symmetric-heavy': 0.2, 'removal+extras': 0.12, 'two-residue': 0.1, 'extras-same-element': 0.06,
+                 'extra-stands-in': 0.008, 'reordered': 0.4, 'heavy-renamed': 0.3, 'atoms-rebuilt': 0.2, 'input-disconnected': 0.1}),
 ]
